@@ -135,7 +135,21 @@ func genRecv(t *rapid.T) recvCase {
 	}
 	peers := []string{"192.168.7.9", "10.0.0.5", "172.16.3.3", "2001:db8:aaaa::1"}
 	rc.PeerIP = peers[rapid.IntRange(0, len(peers)-1).Draw(t, "peer")]
-	switch rapid.IntRange(0, 4).Draw(t, "allowKind") {
+	switch rapid.IntRange(0, 5).Draw(t, "allowKind") {
+	case 5:
+		// nested networks that start at the same address: a narrow one the peer is not in, and a wide one it is in
+		// (membership computed below from the list, not from the way it was built)
+		rc.Allow = [][]string{
+			{"192.168.0.0/24", "192.168.0.0/16", "10.0.0.0/30", "10.0.0.0/8", "2001:db8::/64", "2001:db8::/32"},
+			{"10.0.0.0/8", "10.0.0.0/30", "172.16.0.0/24", "172.16.0.0/12"},
+			{"192.168.0.0/24", "172.16.0.0/24", "2001:db8::/64"},
+		}[rapid.IntRange(0, 2).Draw(t, "nested")]
+		peer := netip.MustParseAddr(rc.PeerIP)
+		for _, a := range rc.Allow {
+			if netip.MustParsePrefix(a).Contains(peer) {
+				rc.peerAllow = true
+			}
+		}
 	case 0:
 		rc.peerAllow = true // no allow list: everybody
 	case 1:
